@@ -19,8 +19,8 @@ ROOT = os.path.dirname(os.path.abspath(__file__))
 LEAN = os.path.join(ROOT, "lean")
 REPO = os.environ.get("VERIF_REPO", "/repo")
 CACHE = os.path.join(ROOT, ".cache")
-OUT = os.path.join(ROOT, "out")
-EVID = os.path.join(ROOT, "evidence")
+OUT = os.environ.get("VERIF_OUT") or os.path.join(ROOT, "out")            # VERIF_OUT: scratch output when trying a changed tree (VERIF_REPO)
+EVID = os.path.join(OUT, "evidence") if os.environ.get("VERIF_OUT") else os.path.join(ROOT, "evidence")
 DRIVER = os.path.join(LEAN, ".lake", "build", "bin", "jvdriver")
 GUARD = "JSONCONS_VERIF"
 CXXFLAGS = ["-std=c++17", "-O1", "-g", "-fsanitize=address,undefined",
